@@ -28,6 +28,13 @@ import (
 	"verif/harness/internal/core"
 )
 
+// the two reverse searchers share their entry points
+type directSearcher interface {
+	FindIndicesAt(haystack []byte, at int) (int, int, bool)
+	Find(haystack []byte) *meta.Match
+	IsMatch(haystack []byte) bool
+}
+
 func runRevSuffix(args []string) {
 	fs := flag.NewFlagSet("revsuffix", flag.ExitOnError)
 	in := fs.String("in", "", "TLC output (MC_ReverseSuffix)")
@@ -51,8 +58,13 @@ func runRevSuffix(args []string) {
 		return []int{s, e}
 	}
 	_, err = core.ReadRecords(f, runtime.NumCPU(), func(rec *core.Record) {
-		if rec.RSS == nil || rec.MSZ == nil {
+		inner := rec.RIP != nil && rec.RIQ != nil && rec.RII != nil
+		if !inner && (rec.RSS == nil || rec.MSZ == nil) {
 			return
+		}
+		wantStrat, tag := "UseReverseSuffix", "revsuffix"
+		if inner {
+			wantStrat, tag = "UseReverseInner", "revinner"
 		}
 		pat := rec.Re.Pattern()
 		std, err := regexp.Compile(pat)
@@ -66,19 +78,34 @@ func runRevSuffix(args []string) {
 			return
 		}
 		strat := eng.Strategy().String()
-		suffix := make([]byte, len(rec.RSS))
-		for i, x := range rec.RSS {
+		lits := rec.RSS
+		if inner {
+			lits = rec.RII
+		}
+		suffix := make([]byte, len(lits))
+		for i, x := range lits {
 			suffix[i] = byte(x)
 		}
 		// the searcher on its own, built like meta.buildReverseSearchers builds it
-		var direct *meta.ReverseSuffixSearcher
+		var direct directSearcher
 		if re, perr := syntax.Parse(pat, syntax.Perl); perr == nil {
 			comp := nfa.NewCompiler(nfa.CompilerConfig{UTF8: true, Anchored: false, DotNewline: false, MaxRecursionDepth: 100})
 			if n, nerr := comp.CompileRegexp(re); nerr == nil {
-				direct, _ = meta.NewReverseSuffixSearcher(n, literal.NewSeq(literal.NewLiteral(suffix, true)), lazy.DefaultConfig(), *rec.MSZ)
+				if inner {
+					pre, e1 := syntax.Parse(rec.RIP.Pattern(), syntax.Perl)
+					suf, e2 := syntax.Parse(rec.RIQ.Pattern(), syntax.Perl)
+					if e1 == nil && e2 == nil {
+						info := &literal.InnerLiteralInfo{Literals: literal.NewSeq(literal.NewLiteral(suffix, true)), InnerIdx: 1, PrefixAST: pre, SuffixAST: suf}
+						if x, err := meta.NewReverseInnerSearcher(n, info, lazy.DefaultConfig()); err == nil {
+							direct = x
+						}
+					}
+				} else if x, err := meta.NewReverseSuffixSearcher(n, literal.NewSeq(literal.NewLiteral(suffix, true)), lazy.DefaultConfig(), *rec.MSZ); err == nil {
+					direct = x
+				}
 			}
 		}
-		rep.API("revsuffix:strategy="+strat, 1)
+		rep.API(tag+":strategy="+strat, 1)
 		calls, cases, nontriv := 0, 0, 0
 		var hx string
 		guard := func(api string, fn func()) {
@@ -119,7 +146,7 @@ func runRevSuffix(args []string) {
 				nontriv++
 			}
 			// the verdict: the engine, when the selector itself picked this searcher
-			if strat == "UseReverseSuffix" {
+			if strat == wantStrat {
 				for p := range h.AtF {
 					at := offs[p]
 					guard("Engine.FindIndicesAt", func() {
@@ -130,6 +157,13 @@ func runRevSuffix(args []string) {
 						}
 					})
 				}
+				guard("Engine.FindIndices", func() {
+					s, e, ok := eng.FindIndices(b)
+					if got := pair(s, e, ok); !eqInts(got, h.AtF[0]) {
+						rep.Fail(&core.Failure{Prop: "C19", API: "Engine.FindIndices", Mode: "first", Pattern: pat, Hay: hx,
+							Want: fmt.Sprint(h.AtF[0]), Got: fmt.Sprint(got), Strat: strat, Fam: rec.Fam})
+					}
+				})
 				guard("Engine.IsMatch", func() {
 					if got := eng.IsMatch(b); got != (len(h.AtF[0]) > 0) {
 						rep.Fail(&core.Failure{Prop: "C19", API: "Engine.IsMatch", Mode: "first", Pattern: pat, Hay: hx,
@@ -142,14 +176,14 @@ func runRevSuffix(args []string) {
 				agree := true
 				for p := range h.RFA {
 					at := offs[p]
-					guard("ReverseSuffixSearcher.FindIndicesAt", func() {
+					guard("ReverseSearcher.FindIndicesAt", func() {
 						s, e, ok := direct.FindIndicesAt(b, at)
 						if !eqInts(pair(s, e, ok), h.RFA[p]) {
 							agree = false
 						}
 					})
 				}
-				guard("ReverseSuffixSearcher.Find", func() {
+				guard("ReverseSearcher.Find", func() {
 					m := direct.Find(b)
 					got := []int{}
 					if m != nil {
@@ -159,26 +193,28 @@ func runRevSuffix(args []string) {
 						agree = false
 					}
 				})
-				guard("ReverseSuffixSearcher.IsMatch", func() {
+				guard("ReverseSearcher.IsMatch", func() {
 					if h.RIM != nil && direct.IsMatch(b) != *h.RIM {
 						agree = false
 					}
 				})
 				switch {
 				case agree && h.RBad:
-					rep.API("revsuffix:model leaves the reference, code does the same (predicted, reproduced)", 1)
+					rep.API(tag+":model leaves the reference, code does the same (predicted, reproduced)", 1)
 				case agree:
-					rep.API("revsuffix:model=code", 1)
+					rep.API(tag+":model=code", 1)
 				case h.RBad:
-					rep.API("revsuffix:model leaves the reference, code differs from the model", 1)
+					rep.API(tag+":model leaves the reference, code differs from the model", 1)
 				default:
-					rep.API("revsuffix:model!=code", 1)
+					rep.API(tag+":model!=code", 1)
+					rep.Sample(map[string]any{"model_differs_from_code": true, "pattern": pat, "strategy": strat, "haystack_hex": hx, "model_FindAt": h.RFA,
+						"model_Find": h.RF, "model_IsMatch": h.RIM, "reference": h.AtF})
 				}
 			}
 		}
 		rep.Add(1, cases, calls, nontriv, strat)
 		if len(rec.Hs) > 0 {
-			rep.Sample(map[string]any{"pattern": pat, "suffix": string(suffix), "dotstar": *rec.MSZ, "strategy": strat,
+			rep.Sample(map[string]any{"pattern": pat, "suffix": string(suffix), "driver": tag, "strategy": strat,
 				"haystack_hex": core.Hex(core.HayBytes(rec.Hs[len(rec.Hs)-1].H)), "model_FindAt": rec.Hs[len(rec.Hs)-1].RFA, "reference": rec.Hs[len(rec.Hs)-1].AtF})
 		}
 	})
